@@ -252,7 +252,7 @@ def history_workload(ops, rng, n, depth=12):
 
 GROWERS = [
     # results that grow relative to the input, placed at every exit of the parser
-    'http://h/?"""" ', 'http://h/?\'\'\'\'', 'http://h?""', 'http://h#   ', 'http://h/#"<>`', 'http://h/ a b c',
+    'http://h/?"""" ', 'http://h/?\'\'\'\'', 'http://h?""', 'http://h#   ', 'https://example.org?q=1', 'http://example.org#f', 'https://a.b', 'http://h?', 'http://h#', 'http://h/#"<>`', 'http://h/ a b c',
     'http://h/{}{}{}', 'http://u"<>:p @h/', 'http://"""@h', 'http://h', 'ws://h?q', 'http://h\\a\\b', 'a://h/"', 'a:/p?"\'',
     'a:x y z#"', 'a:\x01\x02\x03', 'a://h\x7f/', 'http://0x7f.1/', 'http://1/', 'http://0x1', 'http://017700000001',
     'http://[0:0:0:0:0:0:0:1]/', 'http://[1::1.2.3.4]', 'http://%41%42%43/', 'file:c|/x', 'file:///x/../../y', 'http://h:80/',
@@ -267,7 +267,7 @@ def limit_workload(ops, rng, n):
     for i in range(n):
         ops.reset()
         r = rng.random()
-        base = rng.choice(BASES)
+        base = rng.choice(BASES) if rng.random() < 0.5 else None      # the parser's shortcuts only apply without a base
         if r < 0.45:
             inp = rng.choice(GROWERS)
             if rng.random() < 0.3:
